@@ -430,6 +430,10 @@ def runBuiltin : Nat → Builtin → St → Except IErr St
           match popStr s with
           | .error e => .error e
           | .ok (names, s) =>
+            -- repaired: a name number outside 1..count gives a warning and the empty string (as BibTeX)
+            if n < 1 ∨ n > (splitNameList names).length then
+              .ok (push (warn s ("there is no name number ".toList ++ intToStr n ++ " in \"".toList ++ names ++ "\"".toList)) (.str []))
+            else
             match pyIndex (splitNameList names) (n - 1) with
             | none => .error (.internal "IndexError: format.name$")
             | some name =>
@@ -704,9 +708,9 @@ def runCommand (fuel : Nat) (inp : Input) (c : Command) (s : St) : Except IErr S
     let keys := s.citations.mapM fun c =>
       match dget (frameOf s c) "sort.key$".toList with
       | some v => (valToStr v).map fun k => (k, c)
-      | none => none
+      | none => some ([], c)          -- repaired: an entry without `sort.key$` sorts on the empty key
     match keys with
-    | none => .error (.internal "KeyError: sort.key$")
+    | none => .error (.internal "sort.key$ is not a string")
     | some l => .ok { s with citations := (sortByKey l).map (·.2) }
   else .error (.internal "unknown command")
 
